@@ -76,6 +76,24 @@ class Prop(common.PropertyCheck):
                    'at': rng.choice(['none', 'none', 'given', 'partial']), 'ag': rng.choice(['none', 'none', 'given', 'partial']),
                    'res': rng.choice(['none', 'none', 'given', 'partial']), 'bad': rng.choice([None] * 8 + ['len_at', 'len_ag', 'len_res', 'scalar_at', 'len_all_short', 'len_all_long']),
                    'dt': rng.choice(['I', 'I', 'F'])}
+        for _ in range(self.budget(1, 5)):
+            yield {'k': 'big', 'n': (1 << 20) * rng.choice([1, 2]) + rng.randrange(1, 5000), 'seed': rng.randrange(1 << 30)}
+
+    def run_big(self, case):
+        r = np.random.RandomState(case['seed'] % (1 << 31))
+        n = case['n']
+        a = r.randint(0, 1024, size=(n, 3)).astype(np.float64)
+        try:
+            t = np.asarray(FlowCal.transform.to_rfi(a, [2, 0], [(4, 1), (0, 0)], [None, 2.], [1024, None]), dtype=float)
+        except Exception as e:
+            return {'big': 'raised %s %s' % (type(e).__name__, str(e)[:80])}
+        want = a.copy()
+        want[:, 2] = 1. * 10 ** (4 / 1024. * a[:, 2]); want[:, 0] = a[:, 0] / 2.
+        bad = np.argwhere(~(np.abs(t - want) <= 1e-12 * np.abs(want)))
+        if len(bad):
+            return {'big': '%d of %d events not converted with their channel law (first: event %d column %d is %r, expected %r)' % (
+                len(set(bad[:, 0].tolist())), n, bad[0][0], bad[0][1], float(t[bad[0][0], bad[0][1]]), float(want[bad[0][0], bad[0][1]]))}
+        return {'big': None}
 
     def build(self, case):
         import random
@@ -159,6 +177,8 @@ class Prop(common.PropertyCheck):
         return {'scalar': [bits(v[0]), bits(v[1])] if kind == 'pair' else bits(v)}
 
     def run_impl(self, case):
+        if case.get('k') == 'big':
+            return self.run_big(case)
         d, ch, at, ag, res, names = self.build(case)
         out = {'meta': meta_of(d), 'in': arr_bits(d), 'in_range': range_bits(d),
                'args': {'channels': None if ch is None else ({'list': ch} if isinstance(ch, list) else {'scalar': ch}),
@@ -244,6 +264,8 @@ class Prop(common.PropertyCheck):
         return laws
 
     def oracle(self, case, impl):
+        if case.get('k') == 'big':
+            return None if impl['big'] is None else 'array of %d events: %s' % (case['n'], impl['big'])
         bad = case['bad'] if case['form'] != 'scalar' else None
         if bad == 'scalar_at' and case['form'] != 'list':
             bad = None
@@ -290,6 +312,8 @@ class Prop(common.PropertyCheck):
         return None
 
     def model_request(self, case, impl):
+        if case.get('k') == 'big':
+            return None
         a = impl['args']
         if a['at'] is not None and a['at'].get('scalar') == 'bad':
             return None
@@ -327,6 +351,8 @@ class Prop(common.PropertyCheck):
         return None
 
     def nontrivial_key(self, case, impl):
+        if case.get('k') == 'big':
+            return ('big', case['n'] >> 20)
         laws = None
         if 'err' not in impl and not case['bad']:
             try:
